@@ -73,8 +73,17 @@ func zmodem(name string) {
 	if p := os.Getenv("VF_ZM_SCRIPT"); p != "" {
 		b, _ := os.ReadFile(p)
 		script = string(b)
+	} else if b, err := os.ReadFile(".vf_zm_script"); err == nil {
+		script = string(b) // per-case script in the helper's working directory
 	}
 	stdinLog := os.Getenv("VF_ZM_STDIN_LOG")
+	if stdinLog == "" {
+		stdinLog = ".vf_zm_stdin"
+	}
+	if os.Getenv("VF_HELPER_LOG") == "" {
+		os.Setenv("VF_HELPER_LOG", ".vf_zm_log")
+	}
+	logLine(name + " started")
 	gotInput := make(chan struct{}, 1)
 	go func() {
 		r := bufio.NewReader(os.Stdin)
